@@ -136,7 +136,8 @@ fn e1_main(a: &Args) -> i32 {
         }
         let run_seed = prng::mix(seed, &[tier_id(&tier), 1, i]);
         let t0 = Instant::now();
-        let run = e1::gen_run(run_seed, &params, &corpus, &mut oracle);
+        // the first runs of every batch are the systematic sweep of extreme operand pairs
+        let run = if i < e1::extremes_sweep_runs() { e1::extremes_sweep_run(i) } else { e1::gen_run(run_seed, &params, &corpus, &mut oracle) };
         let t1 = Instant::now();
         let (isos, mut found) = e1::isolate(&run, &mut oracle);
         let (run2, isos2) = e1::without_crashers(&run, &isos);
